@@ -304,7 +304,9 @@ def _work(args):
     out = []
     for idx, cell in items:
         try:
-            out.append((idx, I.run_cell(cell, path)))
+            # one directory per cell: a straggling saver thread of an earlier (threaded) cell must
+            # never meet the directories of a later one
+            out.append((idx, I.run_cell(cell, os.path.join(path, "c%d" % idx))))
         except Exception as ex:  # noqa  (a crash of the harness itself)
             out.append((idx, {"harness_error": "%s: %s" % (type(ex).__name__, str(ex)[:300])}))
     shutil.rmtree(path, ignore_errors=True)
@@ -323,7 +325,8 @@ def _timing_suspect(o):
 
 
 def run_cells(cells, nproc=None):
-    nproc = nproc or min(16, os.cpu_count() or 4)
+    # threaded cells mostly wait (thread joins, mailbox polling): oversubscribe the cores
+    nproc = nproc or min(32, 2 * (os.cpu_count() or 4))
     os.makedirs(TMP, exist_ok=True)
     items = list(enumerate(cells))
     # interleave so that slow (threaded) cells spread over the workers
@@ -337,9 +340,11 @@ def run_cells(cells, nproc=None):
             for idx, o in part:
                 obs[idx] = o
         # cells whose outcome smells of a time-out are run again, one at a time
-        again = [(i, cells[i]) for i, o in enumerate(obs) if _timing_suspect(o)][:40]
+        again = [(i, dict(cells[i], timeout=45)) for i, o in enumerate(obs) if _timing_suspect(o)][:24]
         if again:
-            for part in pool.map(_work, [(1000 + k, [it]) for k, it in enumerate(again)][:40], chunksize=40):
+            # few at a time (6 groups), so that the machine is not the reason a second time
+            groups = [(1000 + g, again[g::6]) for g in range(6) if again[g::6]]
+            for part in pool.map(_work, groups, chunksize=max(1, len(groups) // 6)):
                 for idx, o in part:
                     obs[idx] = o
     shutil.rmtree(TMP, ignore_errors=True)
@@ -351,7 +356,7 @@ def matrix_cells(ctx):
     which output, other variant) with two dtype variants in the quick tier, all in the thorough tier."""
     big = ctx.thorough or ctx.escalated()
     cells = []
-    shapes = [(1, 3), (3, 3)] + ([(2, 1), (4, 2), (5, 5)] if big else [])
+    shapes = [(1, 3), (3, 3)] + ([(2, 3), (4, 2), (2, 1), (5, 5)] if big else [])
     for kind in I.KINDS:
         for vk in I.VK:
             if not I.applicable(kind, vk):
@@ -365,11 +370,26 @@ def matrix_cells(ctx):
                         for rechunk in (True, False):
                             for api in ("get_array", "make"):
                                 for proc in ("single_thread", "threaded_mailbox"):
-                                    if proc == "threaded_mailbox" and not big and (
-                                            dv not in (0, 3) or (n == 1 and api == "make")):
-                                        continue
+                                    if not big:
+                                        # quick tier: thin out combinations that add little
+                                        if n == 1 and api == "get_array":
+                                            continue
+                                        if proc == "threaded_mailbox" and (
+                                                dv not in (0, 3) or n == 1 or
+                                                (api == "get_array") != rechunk):
+                                            continue
                                     cells.append(dict(kind=kind, vk=vk, dv=dv, which=w, ov=ov, pos=pos, n=n, r=r,
                                                       rechunk=rechunk, api=api, proc=proc))
+    if big:
+        # seeded random run shapes beyond the fixed ones
+        combos = [(k, vk, v) for k in I.KINDS for vk in I.VK if I.applicable(k, vk) for v in I.variants(k, vk)]
+        for _ in range(600):
+            kind, vk, (dv, w, ov) = ctx.rng.choice(combos)
+            n = ctx.rng.randint(2 if vk in ("gap", "overlap") else 1, 7)
+            cells.append(dict(kind=kind, vk=vk, dv=dv, which=w, ov=ov, pos=ctx.rng.randrange(n), n=n,
+                              r=ctx.rng.randint(1, 9), rechunk=ctx.rng.random() < 0.5,
+                              api=ctx.rng.choice(["get_array", "make"]),
+                              proc=ctx.rng.choice(["single_thread", "threaded_mailbox"])))
     return cells
 
 
@@ -462,7 +482,13 @@ def unit_matrix(ctx):
     dist, nontriv = {}, set()
     n_bad_spec, n_bad_corr = {}, 0
     failing = []
+    inconclusive = []
     for cell, o, mo in zip(cells, obs, mout):
+        if _timing_suspect(o) and cell["proc"] == "threaded_mailbox" and "harness_error" not in o:
+            # still a mailbox / thread-join time-out after the cell was run again on its own: the
+            # machine is too loaded to judge this cell (hangs are C06's subject, not C12's)
+            inconclusive.append({"cell": cell, "exc": o.get("exc", "")[:120]})
+            continue
         if "harness_error" in o:
             ctx.violation("matrix", "the harness could not run a cell: " + o["harness_error"],
                           {"input": "corr:C12/matrix/harness", "cell": cell}, no_failing_input=True)
@@ -497,7 +523,12 @@ def unit_matrix(ctx):
                                                                            n_bad_spec[sig]),
                       {"input": cell_signature(cell), "cell": cell, "observed": o, "model": mo,
                        "replay_note": "bin/check C12 --replay <this file> re-runs the cell on the real strax"})
-    ctx.count("matrix", len(cells), len(nontriv), dist)
+    ctx.coverage["matrix_cells_inconclusive_timeouts"] = {"n": len(inconclusive), "first": inconclusive[:5]}
+    if len(inconclusive) > max(10, len(cells) // 20):
+        ctx.violation("matrix", "%d threaded-mailbox cells ended in mailbox / thread-join time-outs even when run "
+                      "again on their own" % len(inconclusive),
+                      {"input": "corr:C12/matrix/timeouts", "cells": inconclusive[:10]}, no_failing_input=True)
+    ctx.count("matrix", len(cells) - len(inconclusive), len(nontriv), dist)
     k = len(cells) // 3
     ctx.sample({"unit": "matrix", "cell": cells[k], "impl": {"code": obs[k].get("code"),
                                                             "stored": {d: v.get("is_stored") for d, v in
@@ -533,10 +564,17 @@ def run(ctx):
         "processor only",
         "harness plugins (harness/props/c12_impl.py) are mirrored by hand in coq/Model/C12Harness.v",
     ]
+    def progress(msg):
+        sys.stderr.write("[C12 %6.1fs] %s\n" % (lib.now() - ctx.t0, msg))
+        sys.stderr.flush()
+    progress("ctor")
     eqs = unit_ctor(ctx)
+    progress("continuity, timefields")
     unit_continuity(ctx)
     unit_timefields(ctx)
+    progress("matrix")
     eqs2 = unit_matrix(ctx)
+    progress("kernel cross-check")
     n, fails = lib.coq_crosscheck(
         "C12", "From SV Require Import Model.Rows Model.PluginKinds Model.C12Harness Model.C12Run.", eqs + eqs2)
     ctx.coverage.setdefault("kernel_crosscheck", {})["c12"] = {"equations": n, "failed_files": len(fails)}
